@@ -84,7 +84,13 @@ Base ==
      [toks |-> << Kw("MATCH", "match", "Match"), Sym("(n:City)"), Kw("WHERE", "where", "wHERE"), Sym("n.name"),
                   Kw("CONTAINS", "contains", "Contains"), Str("a", "b", "A"), Kw("RETURN", "return", "Return"),
                   Sym("count(n)"), Kw("AS", "as", "As"), Sym("x") >>,
-      tight |-> <<TRUE, TRUE, FALSE, FALSE, FALSE, FALSE, FALSE, FALSE, FALSE>>, gaps |-> {2, 5, 6, 10}] >>
+      tight |-> <<TRUE, TRUE, FALSE, FALSE, FALSE, FALSE, FALSE, FALSE, FALSE>>, gaps |-> {2, 5, 6, 10}],
+     \* two literals: the first ends in an escaped backslash (or holds an escaped quote), so a key function that
+     \* mis-tracks escapes is out of step when it reaches the blanks inside the second one
+     [toks |-> << Kw("RETURN", "return", "Return"),
+                  << Same3("'a\\\\'"), Same3("'a\\''"), Same3("'a'") >>,
+                  Kw("AS", "as", "As"), Sym("y"), Sym(","), Str("b", "c", "B"), Kw("AS", "as", "As"), Sym("x") >>,
+      tight |-> <<FALSE, FALSE, FALSE, TRUE, TRUE, FALSE, FALSE>>, gaps |-> {2, 5, 6, 8}] >>
 
 NTok(b) == Len(Base[b].toks)
 
